@@ -41,6 +41,19 @@
 // @funcs PBasic::basic_run; PBasic::cmdlet; PBasic::cmddim
 // @bounds string array of 4 elements; assignment a$(i) = a$(j) + "x" for all i, j in 0..3 (case split), then every element is read back
 // @oracle only element i changes and it holds the old a$(j) followed by "x" (the left-hand side is fixed before the right-hand side is evaluated)
+// @id C17.string_functions
+// @also C08
+// @engine B
+// @entry vfh_C17_string_functions
+// @shared_state_watch
+// @tier Q
+// @opts max_steps=60000000
+// @reach basic.ran
+// @funcs PBasic::basic_run; PBasic::strfactor; PBasic::factor
+// @bounds the real interpreter runs one program that applies a string function to the 5-character text "abcde" and punches the result: MID$(s, i), MID$(s, i, n), LTRIM/RTRIM/TRIM of a padded copy, PAD(s, n), INSTR(s, t), LEN, STR$ and CHR$/ASC round trip; start i in -1..8 and count n in 0..8 (case split)
+// @oracle no input makes the interpreter throw: every program returns normally (no C++ exception leaves basic_run - RunString would pass it on to the caller and abort the process); MID$ returns the at most n characters starting at position max(i,1), the empty string when that position is beyond the end; the trims remove exactly the blanks on their side; PAD extends to n characters and never shortens; INSTR returns the 1-based position or 0
+// @stubs PHRQ_io::error_msg / warning_msg (counted); Phreeqc::fpunchf_user (captures the cell)
+// @outside chemistry functions; string length limits of the interpreter (256 characters per token)
 // @id C05.user_punch_text
 // @also C17
 // @engine B
@@ -197,4 +210,69 @@ extern "C" void vfh_C05_user_punch(void)
 	vf_check("punch.text_width", (int) n == (len > width ? len : width) + 1);
 	vf_check("punch.number_format", strcmp(g_fmt[1], hp ? "%20.12e\t" : "%12.4e\t") == 0);
 	vf_close("punch.number_value", g_num[1], v, 0, 0);
+}
+
+static void cell_text(int k, char *out, size_t n)
+{
+	const char *got = g_cell[k];
+	while (*got == ' ') got++;
+	strncpy(out, got, n - 1); out[n - 1] = 0;
+	char *tab = strchr(out, '\t'); if (tab) *tab = 0;
+}
+
+extern "C" void vfh_C17_string_functions(void)
+{
+	int fn = (int) vf_int("function", 0, 5);
+	int i = (fn <= 1 || fn == 3) ? (int) vf_int("position_or_width", -1, 8) : 1;
+	int n = fn == 1 ? (int) vf_int("count", 0, 8) : 0;
+	std::ostringstream os;
+	os << "10 s$ = \"abcde\"\n";
+	switch (fn)
+	{
+	case 0: os << "20 PUNCH \"[\" + MID$(s$, " << i << ") + \"]\"\n"; break;
+	case 1: os << "20 PUNCH \"[\" + MID$(s$, " << i << ", " << n << ") + \"]\"\n"; break;
+	case 2: os << "20 t$ = \"  \" + s$ + \"   \"\n30 PUNCH \"[\" + LTRIM(t$) + \"]\", \"[\" + RTRIM(t$) + \"]\", \"[\" + TRIM(t$) + \"]\"\n"; break;
+	case 3: os << "20 PUNCH \"[\" + PAD(s$, " << i << ") + \"]\"\n"; break;
+	case 4: os << "20 PUNCH INSTR(s$, \"cd\"), INSTR(s$, \"x\"), LEN(s$), LEN(\"\")\n"; break;
+	default: os << "20 PUNCH \"[\" + CHR$(ASC(\"b\")) + STR$(12) + \"]\"\n"; break;
+	}
+	Interp I;
+	int rc = -99;
+	bool threw = false;
+	try { rc = run(I, os.str()); } catch (...) { threw = true; }
+	vf_check("strings.no_exception_leaves_the_interpreter", !threw);
+	if (threw) return;
+	vf_check("strings.no_error", rc == 0 && g_err == 0);
+	char got[128], want[128];
+	static const char *S = "abcde";
+	if (fn == 0 || fn == 1)
+	{
+		int start = i < 1 ? 1 : i, len = 5;
+		int cnt = fn == 0 ? len : n;
+		want[0] = '['; int w = 1;
+		for (int k = start - 1; k < len && k < start - 1 + cnt; k++) want[w++] = S[k];
+		want[w++] = ']'; want[w] = 0;
+		cell_text(0, got, sizeof got);
+		vf_check("strings.mid", g_ncell == 1 && strcmp(got, want) == 0);
+	}
+	else if (fn == 2)
+	{
+		cell_text(0, got, sizeof got); vf_check("strings.ltrim", strcmp(got, "[abcde   ]") == 0);
+		/* the punched cell is right-aligned: leading blanks of the value itself cannot be told from the alignment; compare the tail */
+		vf_check("strings.rtrim", strstr(g_cell[1], "[  abcde]") != 0);
+		cell_text(2, got, sizeof got); vf_check("strings.trim", strcmp(got, "[abcde]") == 0);
+	}
+	else if (fn == 3)
+	{
+		int width = i > 5 ? i : 5;
+		want[0] = '['; for (int k = 0; k < width; k++) want[1 + k] = k < 5 ? S[k] : ' '; want[1 + width] = ']'; want[2 + width] = 0;
+		vf_check("strings.pad", g_ncell == 1 && strstr(g_cell[0], want) != 0);
+	}
+	else if (fn == 4)
+		vf_check("strings.instr_len", g_ncell == 4 && g_num[0] == 3 && g_num[1] == 0 && g_num[2] == 5 && g_num[3] == 0);
+	else
+	{
+		cell_text(0, got, sizeof got);
+		vf_check("strings.chr_asc_str", strncmp(got, "[b", 2) == 0 && strstr(got, "12") != 0);
+	}
 }
